@@ -117,9 +117,22 @@ class MFramer(object):
         return self.outline(self.active) if self.active else []
 
     def actives(self):
+        """The evaluated set: the full outline cut after the topmost frame that has a conditional auxiliary running under
+        it.  Computed from the auxiliaries' own state, not remembered: a suspension lasts exactly as long as its auxiliary
+        runs, so it survives a transition that keeps the main frame (the frame is only re-entered) and the completion of
+        another conditional auxiliary above or beside it (C05 / C10: 'while a conditional auxiliary of an active frame is
+        running ...')."""
         full = self.full()
-        if self.cut is not None and self.cut in full:
-            return full[:full.index(self.cut) + 1]
+        model = getattr(self, "model", None)
+        if model is None or not getattr(model, "fix_suspension_persists", True):
+            if self.cut is not None and self.cut in full:
+                return full[:full.index(self.cut) + 1]
+            return full
+        for i, name in enumerate(full):
+            for a in self.frames[name].cauxes:
+                ax = model.aux_framer(a)
+                if ax.active is not None and ax.main == (self.name, name):
+                    return full[:i + 1]
         return full
 
 
@@ -146,6 +159,7 @@ class Model(object):
             self.shares[path] = {"fields": dict(value) if isinstance(value, dict) else {"value": value}, "stamp": None}
         for fa in program["framers"]:
             fr = MFramer(fa)
+            fr.model = self
             self.framers[fr.name] = fr
             self.forder.append(fr.name)
         self.tasks = []
